@@ -1117,7 +1117,12 @@ fn check_attachments(
         let missing_sig = |carrier: Option<SendRef>, base: &str| -> String {
             let cc = carrier.map(|x| send_time(prog, x)).and_then(|s| consumed.get(&s).copied());
             match (cc, start_cycle) {
-                (Some(c), Some(st)) if st > c => "submit-consumed-before-start-cross-queue".to_string(),
+                // two copies of the target in one trace explain a missing attachment on their own
+                // (finding D6), whenever the carrier was consumed
+                _ if dup_shape => known(base),
+                // D11's remaining half exists in the default configuration only; with cancelable
+                // such a set is kept for a cycle and attached (repaired)
+                (Some(c), Some(st)) if st > c && !cfg.cancelable => "submit-consumed-before-start-cross-queue".to_string(),
                 _ => known(base),
             }
         };
@@ -1318,7 +1323,15 @@ fn check_copies(
         };
         cn.copy_checks += 1;
         // names in recording order
-        let want_names: Vec<String> = line.locals.iter().map(|l| lname(*l)).collect();
+        // the local span of an `enter_on_poll` adapter carries the adapter's name
+        let want_names: Vec<String> = line
+            .locals
+            .iter()
+            .map(|l| match m.locals.get(l).and_then(|ml| ml.poll_of) {
+                Some(a) => pname(a),
+                None => lname(*l),
+            })
+            .collect();
         let got_names: Vec<String> = got.iter().map(|r| r.name.to_string()).collect();
         if want_names != got_names {
             v(out, Cat::CopyDiff, "to-records-names", format!("to_span_records returned {:?}, the set holds {:?}", got_names, want_names));
